@@ -80,13 +80,12 @@ Proof.
   cbn in Hs. apply andb_prop in Hs. destruct Hs as [Hxy _]. apply andb_prop in Hxy. destruct Hxy as [H1 H2].
   apply negb_true_iff in H2. pose proof (entry_strict_elt x y H1 H2) as Hlt.
   cbn [table map] in Hr |- *. apply sorted_inv in Hr. destruct Hr as [_ Hy].
-  constructor; [exact Hlt|]. rewrite Forall_forall in *. intros z Hz. specialize (Hy z Hz). eorder.
+  constructor; [exact Hlt|]. rewrite Forall_forall in *. intros z Hz. specialize (Hy z Hz). clear - Hy Hlt. eorder.
 Qed.
 
 Lemma wf_file_sorted f : wf_fileb f = true -> sorted (table (fents f)).
 Proof.
-  unfold wf_fileb. destruct (fents f) eqn:E; [discriminate|]. rewrite <- E. intros H.
-  apply sorted_entriesb_sorted. now rewrite E.
+  unfold wf_fileb. intros H. apply sorted_entriesb_sorted. destruct (fents f); [discriminate|exact H].
 Qed.
 
 (* ---- keys non-decreasing (all-pairs form) + per-key strictly descending timestamps = sorted *)
